@@ -58,10 +58,14 @@ def key_layer(tok: str, bf: int) -> int:
         return uint_layer(crc64(unhx(p[1])), bf)
     if p[0] == "k":
         return int(p[2])
+    if p[0] in ("ni", "nu"):
+        return uint_layer(abs(int(p[2])), bf)
     raise ValueError(tok)
 
 def key_sort(tok: str):
     p = tok.split(":")
+    if p[0] in ("ni", "nu"):
+        return (p[0], p[2].encode())       # narrower integer types are ordered by their JSON text
     if p[0] in "iuk":
         return (p[0], int(p[1]))
     return (p[0], unhx(p[1]))
